@@ -468,7 +468,10 @@ func c06Objects() []rComp {
 	ea := ev(2, 4, rProp{Name: "UID", Value: "e3"}, rProp{Name: "SUMMARY", Value: "alarm"})
 	ea.Children = []rComp{{Name: "VALARM", Props: []rProp{{Name: "ACTION", Value: "DISPLAY"}, {Name: "DESCRIPTION", Value: "hello"}}}}
 	tz := rComp{Name: "VTIMEZONE", Props: []rProp{{Name: "TZID", Value: "X/Y"}}}
-	kinds := []rComp{e1, e2, td, ea, tz}
+	// a property that is present with an empty value (LOCATION-like); text-match on it is decided by the
+	// substring test and negate-condition like on any other value
+	ee := ev(2, 4, rProp{Name: "UID", Value: "e5"}, rProp{Name: "SUMMARY", Value: "", Params: map[string]string{"LANGUAGE": ""}})
+	kinds := []rComp{e1, e2, td, ea, tz, ee}
 	root := func(ch ...rComp) rComp {
 		return rComp{Name: "VCALENDAR", Props: []rProp{{Name: "VERSION", Value: "2.0"}, {Name: "PRODID", Value: "-//verif//EN"}}, Children: ch}
 	}
@@ -496,7 +499,7 @@ func c06ParamFilters() []caldav.ParamFilter {
 }
 
 func c06TextMatches() []*caldav.TextMatch {
-	return []*caldav.TextMatch{nil, {Text: "ell"}, {Text: "ell", NegateCondition: true}, {Text: "zzz"}, {Text: "zzz", NegateCondition: true}}
+	return []*caldav.TextMatch{nil, {Text: "ell"}, {Text: "ell", NegateCondition: true}, {Text: "zzz"}, {Text: "zzz", NegateCondition: true}, {Text: ""}, {Text: "", NegateCondition: true}}
 }
 
 func c06PropFilters(full bool) []caldav.PropFilter {
